@@ -251,7 +251,7 @@ fn word_dump(xs: &mut Xstate) -> Xresult {
 
 fn dump_bitstr_at(xs: &mut Xstate, start: usize, ncols: usize) -> Xresult {
     let s = current_input(xs)?;
-    let end = s.end().min(start + 16 * ncols * 8);
+    let end = s.end().min(start.saturating_add(16 * ncols * 8));
     let ss = s
         .substr(start, end)
         .ok_or_else(|| Xerr::out_of_range(start, s.bits_range()))?;
@@ -529,7 +529,8 @@ fn word_bitstr(xs: &mut Xstate) -> Xresult {
 
 fn word_bytes(xs: &mut Xstate) -> Xresult {
     let n = xs.pop_data()?.to_usize()?;
-    read_bits(xs, n * 8)
+    // a byte count too large to express in bits is larger than any input
+    read_bits(xs, n.saturating_mul(8))
 }
 
 fn rest_bits(xs: &mut Xstate) -> Xresult1<Xbitstr> {
@@ -541,8 +542,7 @@ fn rest_bits(xs: &mut Xstate) -> Xresult1<Xbitstr> {
 fn peek_bits(xs: &mut Xstate, n: usize) -> Xresult1<Xbitstr> {
     let s = current_input(xs)?;
     let start = current_offset(xs)?;
-    let end = start + n;
-    if let Some(ss) = s.substr(start, end) {
+    if let Some(ss) = start.checked_add(n).and_then(|end| s.substr(start, end)) {
         Ok(ss)
     } else {
         let remain = s.end().max(start) - start; 
